@@ -242,6 +242,9 @@ def c13_cases(tier, seed, sizes):
             cases.append(dict(base, stop_us=rng.choice([1, 5, 20, 50, 100, 200, 500, 1000, 3000])))
         for _ in range(3 if tier == 'quick' else 20):
             cases.append(dict(base, movetime=rng.choice([1, 1, 2, 3, 5])))
+        for _ in range(6 if tier == 'quick' else 40):
+            # the game clock: the engine thinks for clock/20 ms (this limit does not clear the running flag itself)
+            cases.append(dict(base, clock=rng.choice([1, 10, 20, 30, 40, 60, 100, 200])))
     for i, c in enumerate(cases):
         c['id'] = i
     return cases
@@ -304,7 +307,7 @@ def run_c13(tier, seed, verdict, cov):
             srch = [e for e in evs if e.get('ev') == 'search'][-1]
             sig = {'kind': 'cache-write', 'fen': srch['fen'], 'depth': srch['depth'], 'budget': srch['budget'],
                    'movetime': srch['movetime'], 'stop_us': srch['stop_us'], 'fails': r['fails']}
-            if srch['stop_us'] != -1 or srch['movetime'] != -1:
+            if srch['stop_us'] != -1 or srch['movetime'] != -1 or srch.get('clock', -1) != -1:
                 sig = {'kind': 'cache-write', 'fen': srch['fen'], 'depth': srch['depth'], 'interruption': 'asynchronous', 'fails': r['fails']}
             verdict.report(sig, {'how': 'recorded search rejected by SearchTrace.tla (C13)', 'event': evs[-1], 'search': srch},
                            trace_src=f, cut_line=r['line'])
@@ -324,7 +327,7 @@ def run_c13(tier, seed, verdict, cov):
     cov['cache_write_events'] = writes
     cov['abort_events'] = interrupted
     cov['positions'] = len(sizes)
-    cov['distinct_nontrivial'] = len({(c['fen'], c['depth'], c.get('budget'), c.get('stop_us'), c.get('movetime')) for c in cases})
+    cov['distinct_nontrivial'] = len({(c['fen'], c['depth'], c.get('budget'), c.get('stop_us'), c.get('movetime'), c.get('clock')) for c in cases})
     cov['samples'] = samples or ['(none)']
     # self-test: move one write of an interrupted run after its abort
     if not verdict.violations:
@@ -352,6 +355,7 @@ def run_c13(tier, seed, verdict, cov):
 # C12
 
 PRE = [[], [1], [2], [4], [2, 4], [3]]
+PRE_THOROUGH = PRE + [[5], [5, 2]]
 
 
 def run_c12(tier, seed, verdict, cov):
@@ -366,7 +370,7 @@ def run_c12(tier, seed, verdict, cov):
         fens.append(' '.join(q))
     cases = []
     for f in fens:
-        for pre in PRE:
+        for pre in (PRE if tier == 'quick' else PRE_THOROUGH):
             for depth in (3, 4):
                 if pre == [3] and depth != 3:
                     continue
